@@ -51,6 +51,7 @@ type CombinationColexIterator struct {
 	k    int
 	j    int //Position to try to increase
 	data []int
+	done bool //Set once every subset has been returned.
 }
 
 //CombinationsColex returns a new CombinationColexIterator which iterates over all subsets of k distinct elements from 0, ..., n-1 in colexicographic order.
@@ -73,9 +74,19 @@ func (b CombinationColexIterator) Value() []int {
 
 //Next attempts to advance the iterator to the next subset, returning true if there is one and false if not.
 func (b *CombinationColexIterator) Next() bool {
+	if b.done {
+		return false
+	}
+
 	if b.k <= 0 {
 		b.k--
 		return b.k == -1
+	}
+
+	if b.k > b.n {
+		//There are no subsets.
+		b.done = true
+		return false
 	}
 
 	if b.j >= b.k-1 {
@@ -103,6 +114,7 @@ func (b *CombinationColexIterator) Next() bool {
 	}
 
 	if b.data[b.k-1] == b.n-1 {
+		b.done = true
 		return false
 	}
 	b.data[b.k-1]++
